@@ -1,13 +1,149 @@
 """C04 generator: random graph-function signatures as plain data plus python
-source text (no sc3 import).  Program format: see vf/model_controls.py."""
+source text (no sc3 import).  Program format: see vf/model_controls.py.
+
+A signature is also WHICH numbers and WHICH identifiers: default / variant
+values are drawn from NUMS and, 14 % of the time, from EDGE_VALUES (the edges
+of a float32 slot); parameter names are p<k> or come from the hostile pool
+NAME_CLASSES (see draw_value, value_class, name_class, with_neutral_names)."""
 
 NUMS = [0.0, 1.0, 0.5, 0.1, 0.25, 2.0, 3, 7, 10, 100, 440.0, 880, -1.0, -0.3,
         0.001, 1e-6, 12345.678, 60, 0.7071, 1, 0, 0.02, 5.5, 16000.0]
 LAGS = [0.1, 0.2, 0.5, 0.02, 1.0, 2, 0.05, 3.5]
 
+# -- default VALUES at the edges of what a control slot (an IEEE float32) can
+# hold.  Every one of them is a legal python number default; the slot must
+# hold the float32 nearest to it (sign of zero included).  Numbers beyond the
+# float32 range (1e39, 2**200: no nearest float32, the writer refuses them)
+# are outside the domain.
+INF, NAN = float('inf'), float('nan')
+FLT_MAX = 3.4028234663852886e+38
+EDGE_VALUES = [
+    INF, -INF, INF, -INF, INF, -INF,            # endless / unbounded
+    -0.0, -0.0, -0.0,
+    FLT_MAX, -FLT_MAX, 1e38, -2.5e38, 2 ** 127, -2 ** 127, 2 ** 100,
+    1.1754943508222875e-38,                      # smallest normal float32
+    1e-45, 1.7e-39, -3e-42,                      # float32 denormals
+    1e-46, 5e-324, -5e-324, -1e-60,              # round to (signed) zero
+    2 ** 24 + 1, float(2 ** 24 + 1), 2 ** 24 + 3, -(2 ** 24) - 1,
+    2 ** 31 - 1, 2 ** 31, -2 ** 31 - 1, 2 ** 53 + 1, 2 ** 63, 2 ** 64 - 1,
+    0.1 + 0.2, 1 / 3, 1.0000000596046448, 1.00000006, 0.30000001192092896,
+    1e-7, 123456789.125, 0.1, -0.1,
+]
+SPEC_DEFAULTS = [0.3, 7, 9.5, 0.01, 220.0]
+EDGE_SPEC_DEFAULTS = [INF, -INF, -0.0, 2 ** 24 + 1, 1e-45, 1 / 3]
 
-def gen_program(rng, idx, plain=False, prepend_p=(0.15, 0.35)):
-    """plain: no 'special' feature (programs of a session, see gen_session)"""
+
+def is_nan(v):
+    return isinstance(v, float) and v != v
+
+
+def draw_value(rng, p_edge=0.14, allow_nan=True, allow_bool=False):
+    """a default / variant value: an ordinary number or, with p_edge, one at
+    the edges of a float32 slot (rarely NaN, see vf/model_controls.py)"""
+    if rng.random() >= p_edge:
+        return rng.choice(NUMS)
+    r = rng.random()
+    if allow_nan and r < 0.04:
+        return NAN
+    if allow_bool and r < 0.12:
+        return rng.random() < 0.5
+    return rng.choice(EDGE_VALUES)
+
+
+def value_class(v):
+    """class of a declared value (evidence counters / mechanism keys); None
+    for an ordinary number"""
+    if isinstance(v, bool):
+        return 'bool'
+    if is_nan(v):
+        return 'nan'
+    if isinstance(v, float) and v in (INF, -INF):
+        return 'infinity'
+    if isinstance(v, float) and v == 0 and str(v).startswith('-'):
+        return 'negative-zero'
+    if isinstance(v, int) and abs(v) > 2 ** 24:
+        return 'int-beyond-2^24'
+    if abs(v) >= 1e30:
+        return 'huge'
+    if 0 < abs(v) < 1e-30:
+        return 'tiny'
+    return None
+
+
+# -- parameter NAMES from a hostile pool.  A name is only ever a name: it
+# never says anything about rate, lag, order or value.
+NAMES_SCLANG_PREFIX = [
+    'a_in', 'a_gain', 'a_mix', 'a_', 'a_0', 'i_max', 'i_freq', 'i_', 'i_0',
+    't_end', 't_start', 't_trig', 't_fade', 't_', 't_0', 'k_val', 'k_', 'k_0',
+    'a__x', 'i__', 't_t_', 'a_i_t_']
+NAMES_NEAR_PREFIX = [
+    'a', 'i', 't', 'k', '_a_x', '_i_x', '_t_x', 'A_x', 'I_x', 'T_x', 'K_x',
+    'ai_', 'it_x', 'ta_x', 'ar_in', 'kr_lag', 'ir_x', 'tr_x', 'ar_', 'tr_',
+    'x_ar', 'x_kr', 'x_ir', 'x_tr', 'x_a', 'x_i', 'x_t', 'lag_x', 'x_lag',
+    'a1', 'i2', 't3']
+NAMES_RATE = [
+    'ar', 'kr', 'ir', 'tr', 'AR', 'Kr', 'iR', 'TR', 'dr', 'audio', 'control',
+    'scalar', 'trigger', 'demand', 'noncontrol', 'rate', 'lag', 'lags']
+NAMES_LIBRARY = [
+    'name', 'func', 'rates', 'prepend', 'variants', 'metadata', 'specs',
+    'index', 'default_value', 'arg_num', 'values', 'default', 'spec',
+    'target', 'add_action', 'register', 'self', 'cls', 'args', 'kwargs',
+    'wrap', 'add', 'send', 'synthdef', 'SynthDef', 'Control', 'ControlName',
+    'LagControl', 'out', 'gate', 'trig', 'bus', 'doneAction', 'freq', 'amp',
+    'pan', 'dur', 'sustain', 'instrument', 'main', 'server', 'result',
+    '_controls', '_control_names', '_control_index', '_all_control_names',
+    '_callable_args', '_name', '_func', '_special_index', '_inputs',
+    '_synthdef', '_rate', '_metadata', '_variants', '_children',
+    'len', 'list', 'tuple', 'type', 'id', 'int', 'float', 'input', 'sum',
+    'max', 'min', 'print', 'zip', 'iter', 'inspect', 'utl', 'iou', 'ugn',
+    'isinstance', 'enumerate', 'range', 'getattr', 'match', 'case']
+NAMES_DUNDER = [
+    '__init__', '__name__', '__class__', '__dict__', '__call__', '__doc__',
+    '__slots__', '__len__', '__x', '__x__', '_', '__', '___', '_0', 'x__',
+    '__a_', '_i_', '__t_x']
+NAMES_CASE = [
+    'freq', 'Freq', 'FREQ', 'fReq', 'amp', 'Amp', 'AMP', 'x', 'X', 'out',
+    'Out', 'OUT', 'a_in', 'A_IN', 'A_in', 't_end', 'T_END', 'i_max', 'I_MAX']
+NAMES_LONG = [
+    'n' * 255, 'L' * 254 + 'x', 'a_' + 'y' * 200, 'long_' * 40,
+    't_' + 'z' * 253, 'q' * 128, 'i_' + 'w' * 100, 'v' * 254, 'V' * 255]
+NAMES_ORDER = [
+    'l', 'O', 'I', 'lI1', 'O0', 'x1', 'x01', 'x10', 'x2',
+    'p01', 'z', 'Z', 'aa', 'zz', 'b', 'c', 'B', '_z', 'z_']
+# (identifiers that NFKC-normalise to themselves)
+NAMES_UNICODE = ['größe', 'π', 'freq_ñ', 'частота', 'İ_x', 't_é', 'a_ü']
+NAME_CLASSES = [
+    ('sclang-prefix', NAMES_SCLANG_PREFIX, 30), ('near-prefix', NAMES_NEAR_PREFIX, 12),
+    ('rate-name', NAMES_RATE, 12), ('library-attribute', NAMES_LIBRARY, 16),
+    ('dunder-like', NAMES_DUNDER, 8), ('case-variant', NAMES_CASE, 10),
+    ('very-long', NAMES_LONG, 5), ('order-confusing', NAMES_ORDER, 7)]
+# not usable: python keywords, __debug__, and what the generated bodies need
+NAMES_EXCLUDED = {'locals', '__body__', '__debug__', 'None', 'True', 'False'}
+# SynthDef.__call__(self, *args, target, add_action, register, **kwargs):
+# controls with these names can only be set positionally
+CALL_RESERVED = {'self', 'target', 'add_action', 'register'}
+
+
+def name_class(nm):
+    """first class of the pool that lists the name; a prefix a_ i_ t_ k_
+    decides for names built from the pool (suffix against collisions)"""
+    if not nm.isascii():
+        return 'unicode'
+    if len(nm) >= 100:
+        return 'very-long'
+    if nm[:2] in ('a_', 'i_', 't_', 'k_'):
+        return 'sclang-prefix'
+    for cls, pool, _ in NAME_CLASSES:
+        if nm in pool:
+            return cls
+    return None
+
+
+def gen_program(rng, idx, plain=False, prepend_p=(0.15, 0.35), naming=None):
+    """plain: no 'special' feature (programs of a session, see gen_session)
+    naming: {'p': share of hostile names, 'plan': {k: name}} of a session -
+    its programs give their k-th parameter the same name (as with p<k>), so
+    that shared variants / metadata dicts find common names"""
     size_class = rng.choices(['small', 'medium', 'large'], [30, 45, 25])[0]
     total = {'small': rng.randint(0, 4), 'medium': rng.randint(5, 12),
              'large': rng.randint(13, 40)}[size_class]
@@ -20,13 +156,54 @@ def gen_program(rng, idx, plain=False, prepend_p=(0.15, 0.35)):
         counts[rng.randrange(nfuncs) if rng.random() < 0.6 else 0] += 1
     funcs, names = {}, []
     pcounter = [0]
+    # hostile naming: 45 % of the programs (30 % of the sessions) draw 50-100 %
+    # of their parameter names from the hostile pool
+    hostile = rng.random() < 0.45
+    p_hostile = rng.choice([0.5, 0.8, 1.0]) if hostile else 0.0
+    unicode_names = hostile and not plain and rng.random() < 0.03
+    plan = None
+    if naming is not None:
+        p_hostile, plan = naming['p'], naming['plan']
+        hostile = p_hostile > 0
+    used_names = set()
+
+    def new_name():
+        k = pcounter[0]
+        nm = f'p{k}'
+        pcounter[0] += 1
+        while nm in used_names:         # the pool has p01 ...
+            nm += '_'
+        if plan is not None and k in plan:
+            if plan[k] not in used_names:
+                nm = plan[k]
+            used_names.add(nm)
+            return nm
+        nm = draw_name(nm)
+        if plan is not None:
+            plan[k] = nm
+        used_names.add(nm)
+        return nm
+
+    def draw_name(nm):
+        if rng.random() < p_hostile:
+            if unicode_names and rng.random() < 0.3:
+                pool = NAMES_UNICODE
+            else:
+                pool = rng.choices([c[1] for c in NAME_CLASSES],
+                                   [c[2] for c in NAME_CLASSES])[0]
+            cand = rng.choice(pool)
+            if cand in used_names and len(cand) < 200:
+                cand += rng.choice(['_', '0', 'x', 'X', '_1'])
+            if cand not in used_names and cand not in NAMES_EXCLUDED and (
+                    plan is None or cand not in plan.values()):
+                nm = cand
+        return nm
 
     def new_param(prepended, allow_missing):
-        nm = f'p{pcounter[0]}'
-        pcounter[0] += 1
+        nm = new_name()
         if prepended:
             d = ('missing',) if allow_missing and rng.random() < 0.6 \
-                else ('num', rng.choice(NUMS))
+                else ('num', draw_value(rng))
             return {'name': nm, 'annot': None, 'default': d}
         annot = rng.choices([None, 'kr', 'ir', 'tr', 'ar'],
                             [52, 10, 13, 11, 14])[0]
@@ -40,13 +217,14 @@ def gen_program(rng, idx, plain=False, prepend_p=(0.15, 0.35)):
         elif r < 0.30:
             d = ('invalid', rng.choice(["'x'", '[1, 2]', "{'a': 1}", 'len']))
         elif r < 0.72:
-            d = ('num', rng.choice(NUMS) if rng.random() < 0.8
+            d = ('num', draw_value(rng) if rng.random() < 0.8
                  else round(rng.uniform(-1000, 1000), 3))
         else:
             n = rng.choice([1, 2, 2, 3, 3, 4, 5])
             if rng.random() < 0.06:
                 n = rng.randint(17, 21)        # LagControl chunking
-            d = ('tuple', [rng.choice(NUMS) for _ in range(n)])
+            d = ('tuple', [draw_value(rng, allow_bool=True)
+                           for _ in range(n)])
         return {'name': nm, 'annot': annot, 'default': d}
 
     for k in range(nfuncs):
@@ -128,6 +306,8 @@ def gen_program(rng, idx, plain=False, prepend_p=(0.15, 0.35)):
             special = None
     prog = {'name': f'd{idx % 100000}', 'funcs': funcs, 'top': 'g0',
             'specs': {}, 'variants': {}, 'special': special}
+    if hostile:
+        prog['hostile_names'] = True
     live = [f for f in funcs.values() if not f.get('fails')]
     ctl_names = [p['name'] for f in live for p in f['params'][f['prepend']:]]
     by_name = {p['name']: p for f in live for p in f['params']}
@@ -141,7 +321,8 @@ def gen_program(rng, idx, plain=False, prepend_p=(0.15, 0.35)):
             and n not in shaky_names]
     if ctl_names and rng.random() < 0.35:
         for nm in rng.sample(ctl_names, rng.randint(1, min(4, len(ctl_names)))):
-            prog['specs'][nm] = rng.choice([0.3, 7, 9.5, 0.01, 220.0])
+            prog['specs'][nm] = rng.choice(SPEC_DEFAULTS) \
+                if rng.random() < 0.85 else rng.choice(EDGE_SPEC_DEFAULTS)
         # make sure a spec default is sometimes actually used
         unset = [n for n in uniq
                  if by_name[n]['default'][0] in ('missing', 'none')]
@@ -154,9 +335,10 @@ def gen_program(rng, idx, plain=False, prepend_p=(0.15, 0.35)):
                 d = by_name[nm]['default']
                 if d[0] == 'tuple' and rng.random() < 0.7:
                     m = rng.randint(1, len(d[1]))
-                    pairs[nm] = [rng.choice(NUMS) for _ in range(m)]
+                    pairs[nm] = [draw_value(rng, allow_nan=False)
+                                 for _ in range(m)]
                 else:
-                    pairs[nm] = rng.choice(NUMS)
+                    pairs[nm] = draw_value(rng, allow_nan=False)
             prog['variants'][f'v{v}'] = pairs
     # call
     top = funcs['g0']
@@ -171,8 +353,8 @@ def gen_program(rng, idx, plain=False, prepend_p=(0.15, 0.35)):
             return [v + 0.5 * j for j in range(rng.randint(1, len(d[1])))]
         return v
     pos = [maybe_array(top_ctl[k], v) for k, v in enumerate(pos)]
-    rest = sorted({n for n in ctl_names if n not in top_ctl[:npos]},
-                  key=ctl_names.index)
+    rest = sorted({n for n in ctl_names if n not in top_ctl[:npos]
+                   and n not in CALL_RESERVED}, key=ctl_names.index)
     kw = {}
     if rest and rng.random() < 0.7:
         for nm in rng.sample(rest, rng.randint(1, min(4, len(rest)))):
@@ -536,6 +718,50 @@ def without_odd_parameters(prog):
     return q
 
 
+def session_with_neutral_names(sess):
+    """the same session, one renaming for all its programs and for the
+    shared variants / metadata objects (keyed by parameter names)"""
+    import copy
+    new = {}
+    progs = [with_neutral_names(p, new) for p in sess['programs']]
+    shared = copy.deepcopy(sess['shared'])
+    for sh in shared.values():
+        if sh['kind'] == 'V':
+            sh['value'] = {vn: {new.setdefault(k, f'q{len(new)}'): v
+                                for k, v in pairs.items()}
+                           for vn, pairs in sh['value'].items()}
+        elif sh['kind'] == 'M':
+            sh['value'] = {new.setdefault(k, f'q{len(new)}'): v
+                           for k, v in sh['value'].items()}
+    return {'programs': progs, 'shared': shared}
+
+
+def with_neutral_names(prog, new=None):
+    """the same program with every parameter name replaced by a neutral one
+    (q0, q1, ... in order of first appearance; equal names stay equal)"""
+    import copy
+    q = copy.deepcopy(prog)
+    if new is None:
+        new = {}
+
+    def nn(nm):
+        return new.setdefault(nm, f'q{len(new)}')
+    for f in q['funcs'].values():
+        for p in f['params']:
+            p['name'] = nn(p['name'])
+    for f in q['funcs'].values():
+        f['prepend_values'] = [('parent', nn(pv[1])) if pv[0] == 'parent'
+                               else pv for pv in f['prepend_values']]
+    q['specs'] = {nn(k): v for k, v in q['specs'].items()}
+    q['variants'] = {vn: {nn(k): v for k, v in pairs.items()}
+                     for vn, pairs in q['variants'].items()}
+    q['call'] = {'positional': q['call']['positional'],
+                 'keywords': {nn(k): v
+                              for k, v in q['call']['keywords'].items()}}
+    q.pop('hostile_names', None)
+    return q
+
+
 def without_failed_wraps(prog):
     """the same program with every rejected helper removed (its fallback
     is wrapped directly in its place)."""
@@ -567,7 +793,7 @@ def param_source(p):
     if d[0] == 'none':
         s += ' = None' if sp else '=None'
     elif d[0] in ('num', 'bool'):
-        s += (' = ' if sp else '=') + repr(d[1])
+        s += (' = ' if sp else '=') + num_source(d[1])
     elif d[0] == 'invalid':
         s += (' = ' if sp else '=') + d[1]
     elif d[0] == 'tuple' and p.get('default_obj'):
@@ -577,8 +803,16 @@ def param_source(p):
     return s
 
 
+def num_source(v):
+    """python source of a number (inf and nan have no literal)"""
+    if isinstance(v, float) and (v != v or v in (INF, -INF)):
+        return f"float('{v!r}')"
+    return repr(v)
+
+
 def tuple_source(vals):
-    body = ', '.join(repr(x) for x in vals) + (',' if len(vals) == 1 else '')
+    body = ', '.join(num_source(x) for x in vals) \
+        + (',' if len(vals) == 1 else '')
     return f'({body})'
 
 
@@ -685,8 +919,11 @@ def gen_session(rng, idx):
     import copy
     n = rng.choice([2, 2, 3, 3, 4])
     progs = []
+    naming = {'p': rng.choice([0.5, 0.8, 1.0]) if rng.random() < 0.3 else 0.0,
+              'plan': {}}
     for k in range(n):
-        p = gen_program(rng, idx, plain=True, prepend_p=(0.35, 0.45))
+        p = gen_program(rng, idx, plain=True, prepend_p=(0.35, 0.45),
+                        naming=naming)
         p['entry'] = rng.choices(['keywords', 'positional', 'decorator'],
                                  [40, 25, 35])[0]
         names = [q['name'] for f in p['funcs'].values()
@@ -724,7 +961,7 @@ def gen_session(rng, idx):
         lens = sorted(ln for ln, keys in bylen.items() if len(keys) >= 2)
         for ln in rng.sample(lens, min(len(lens), rng.choice([1, 1, 2]))):
             keys = rng.sample(bylen[ln], rng.randint(2, min(4, len(bylen[ln]))))
-            vals = [rng.choice(NUMS) for _ in range(ln)]
+            vals = [draw_value(rng, allow_bool=True) for _ in range(ln)]
             tid = new_id('T', list(vals))
             for key in keys:
                 for q in groups[key]:
@@ -790,7 +1027,7 @@ def gen_session(rng, idx):
         ks = sorted(rng.sample(range(n), rng.randint(2, n)))
         vn = [variant_names(progs[k]) for k in ks]
         common = sorted(set.intersection(*[set(d) for d in vn]),
-                        key=lambda s: int(s[1:]))
+                        key=list(vn[0]).index)
         if common:
             V = {}
             for v in range(rng.randint(1, 3)):
@@ -800,9 +1037,10 @@ def gen_session(rng, idx):
                     if all(q['default'][0] == 'tuple' for q in ps) \
                             and rng.random() < 0.7:
                         m = rng.randint(1, min(len(q['default'][1]) for q in ps))
-                        pairs[nm] = [rng.choice(NUMS) for _ in range(m)]
+                        pairs[nm] = [draw_value(rng, allow_nan=False)
+                                     for _ in range(m)]
                     else:
-                        pairs[nm] = rng.choice(NUMS)
+                        pairs[nm] = draw_value(rng, allow_nan=False)
                 V[f'v{v}'] = pairs
             vid = new_id('V', V)
             for k in ks:
@@ -821,7 +1059,8 @@ def gen_session(rng, idx):
             names += rng.sample(unset, min(len(unset), rng.randint(1, 3)))
             anyn = [q['name'] for q in ctl]
             names += rng.sample(anyn, min(len(anyn), rng.randint(0, 2)))
-        S = {nm: rng.choice([0.3, 7, 9.5, 0.01, 220.0])
+        S = {nm: rng.choice(SPEC_DEFAULTS) if rng.random() < 0.85
+             else rng.choice(EDGE_SPEC_DEFAULTS)
              for nm in dict.fromkeys(names)}
         if S:
             mid = new_id('M', S)
